@@ -71,3 +71,7 @@ mod tests {
         assert_eq!(parse_kind(&mut &b"!"[..]), Err(ParseError::Invalid(b'!')));
     }
 }
+
+#[cfg(kani)]
+#[path = "/verif/harness/sam/reader_cigar_kind.rs"]
+mod verif_kani;
